@@ -687,11 +687,17 @@ func (s *recordingSpan) dedupeAttrs() {
 func (s *recordingSpan) dedupeAttrsFromRecord(record map[attribute.Key]int) {
 	// Use the fact that slices share the same backing array.
 	unique := s.attributes[:0]
-	for _, a := range s.attributes {
+	for i, a := range s.attributes {
 		if idx, ok := record[a.Key]; ok {
 			unique[idx] = a
 		} else {
-			unique = append(unique, a)
+			if len(unique) == i {
+				// Already in place: do not store it again. An exported snapshot
+				// shares this backing array and is read without the span's lock.
+				unique = s.attributes[:i+1]
+			} else {
+				unique = append(unique, a)
+			}
 			record[a.Key] = len(unique) - 1
 		}
 	}
